@@ -80,7 +80,7 @@ func subStreamSequences() mon.Sub {
 			// streaming decoder, one Reader for the whole sequence
 			c.Count(n)
 			c2 := xport.NewChunker(stream, plan)
-			rd := &wsutil.Reader{Source: c2, SkipHeaderCheck: true}
+			rd := &wsutil.Reader{Source: c2, SkipHeaderCheck: true, State: parserStates[c.I%len(parserStates)]}
 			open := false // a non-final data frame went before: the Reader drains control frames by itself then
 			for i := range hs {
 				g, err := rd.NextFrame()
@@ -290,7 +290,7 @@ func subSourceKinds() mon.Sub {
 				// (3) the streaming Reader (parser only)
 				src, _ = mkSource(kind, stream, plan)
 				c.Count(1)
-				rd := &wsutil.Reader{Source: src, SkipHeaderCheck: true}
+				rd := &wsutil.Reader{Source: src, SkipHeaderCheck: true, State: parserStates[(c.I+len(kind))%len(parserStates)]}
 				open, skipped := false, false
 				i = 0
 				for {
